@@ -268,6 +268,19 @@ def build_series_transformer(spec):
     return pools.build_transformer(spec)
 
 
+# one representative configuration of every series transformer (for the exhaustive "every kind" sub-checks)
+SERIES_TRANSFORMER_ENUM = [
+    {"kind": "acf", "n_lags": 3}, {"kind": "pacf", "n_lags": 2}, {"kind": "cos"}, {"kind": "mean"},
+    {"kind": "imputer", "method": "mean"}, {"kind": "imputer", "method": "drift"}, {"kind": "imputer", "method": "linear"},
+    {"kind": "imputer", "method": "nearest"}, {"kind": "imputer", "method": "ffill"}, {"kind": "imputer", "method": "random", "random_state": 3},
+    {"kind": "hampel", "window_length": 5, "n_sigma": 2}, {"kind": "hampel", "window_length": 4, "n_sigma": 1},
+    {"kind": "boxcox", "method": "mle"}, {"kind": "log"}, {"kind": "detrend", "degree": 1},
+    {"kind": "deseason", "sp": 3, "model": "additive"}, {"kind": "deseason", "sp": 4, "model": "multiplicative"},
+    {"kind": "cond_deseason", "sp": 3, "model": "additive"}, {"kind": "scaler", "which": "standard"}, {"kind": "scaler", "which": "minmax"},
+    {"kind": "passthrough", "inner": {"kind": "log"}, "passthrough": False}, {"kind": "passthrough", "inner": {"kind": "log"}, "passthrough": True},
+]
+
+
 series_transformer_specs = st.one_of(
     st.builds(lambda n: {"kind": "acf", "n_lags": n}, st.integers(1, 5)),
     st.builds(lambda n: {"kind": "pacf", "n_lags": n}, st.integers(1, 4)),
